@@ -29,6 +29,16 @@ REPLAY_PATHS = ['menpo/image/test']      # suite replay (thorough tier): the rep
 SHARDS = {"quick": 8, "thorough": 16}
 
 
+def bit_equal(a, b):
+    """Same shape, same dtype, same bits (a zero keeps its sign; any NaN stands for any NaN)."""
+    a, b = np.asarray(a), np.asarray(b)
+    if a.shape != b.shape or a.dtype != b.dtype:
+        return False
+    if a.dtype.kind == "f":
+        return bool((((a == b) & (np.signbit(a) == np.signbit(b))) | (np.isnan(a) & np.isnan(b))).all())
+    return bool(np.array_equal(a, b))
+
+
 class CropMonitor(taps.Monitor):
     name = "crop"
 
@@ -88,8 +98,10 @@ class CropMonitor(taps.Monitor):
         exp = st["px"][sl]
         if res.pixels.dtype != exp.dtype:
             ctx.fail("crop_changed_the_dtype", cls=cls, mech="%s->%s" % (exp.dtype, res.pixels.dtype))
-        if res.pixels.shape != exp.shape or not np.array_equal(res.pixels, exp, equal_nan=exp.dtype.kind == "f"):
+        if res.pixels.shape != exp.shape or not bit_equal(res.pixels, exp):
             nf = ""
+            if res.pixels.shape == exp.shape and np.array_equal(res.pixels, exp, equal_nan=exp.dtype.kind == "f"):
+                nf = ":sign_of_zero_only"
             if res.pixels.shape == exp.shape and exp.dtype.kind == "f":
                 bad = ~((res.pixels == exp) | (np.isnan(res.pixels) & np.isnan(exp)))
                 if bad.any() and not np.isfinite(exp[bad]).any():
@@ -160,7 +172,7 @@ class CropAroundMonitor(taps.Monitor):
         if st["rt"]:
             res = res[0]
         exp = st["px"][(slice(None),) + tuple(slice(a, b) for a, b in zip(clo, chi))]
-        if res.pixels.shape != exp.shape or not np.array_equal(res.pixels, exp, equal_nan=exp.dtype.kind == "f"):
+        if res.pixels.shape != exp.shape or not bit_equal(res.pixels, exp):
             ctx.fail("cropped_pixels_are_not_the_source_block", cls=cls, mech=self.name, expected_shape=list(exp.shape), got_shape=list(res.pixels.shape))
 
 
@@ -248,8 +260,8 @@ class PatchMonitor(taps.Monitor):
                 return
             if res.dtype != exp.dtype:
                 ctx.fail("patches_changed_the_dtype", cls=cls, mech="%s->%s" % (exp.dtype, res.dtype))
-            if not np.array_equal(np.asarray(res), exp):
-                bad = np.argwhere(np.asarray(res) != exp)
+            if not np.array_equal(np.asarray(res), exp, equal_nan=exp.dtype.kind == "f"):
+                bad = np.argwhere(~((np.asarray(res) == exp) | ((np.asarray(res) != np.asarray(res)) & (exp != exp))))
                 H, W = st["px"].shape[1:]
                 ctx.fail("patch_values_differ_from_nearest_neighbour_reference", cls=cls, mech=mech, first_bad=bad[0].tolist(), n_bad=int(len(bad)),
                          image_shape=[H, W], patch_shape=[ph, pw], centre=st["centres"][bad[0][0]].tolist())
@@ -308,15 +320,27 @@ def setup(ctx):
 
 
 DTYPES = [np.uint8, np.uint16, np.int32, np.float32, np.float64]
+CROP_DTYPES = DTYPES + [np.int64, np.uint64]
 
 
 def w_crop(ctx, rng, i):
     from menpo.image.base import ImageBoundaryError
     cls = ["Image", "MaskedImage", "BooleanImage"][i % 3]
     d = [2, 2, 3, 4][(i // 3) % 4]
-    dt = DTYPES[(i // 12) % 5]
+    dt = CROP_DTYPES[(i // 12) % 7]
     shp = tuple(int(v) for v in rng.integers(3, 12 if d < 4 else 6, d))
-    im = gen.image(rng, cls, shape=shp, n_channels=int(rng.integers(1, 6)), dtype=dt)
+    strip = cls != "BooleanImage" and d == 2 and rng.random() < 0.03
+    if strip:
+        # a very long, narrow image (a line-scan strip, a spectrogram): one pixel too many is one pixel too many at any length
+        shp = (int(rng.integers(100100, 140000)), int(rng.integers(2, 4)))
+        if rng.random() < 0.5:
+            shp = shp[::-1]
+        dt = np.uint8
+    im = gen.image(rng, cls, shape=shp, n_channels=1 if strip else int(rng.integers(1, 6)), dtype=dt if dt not in (np.int64, np.uint64) else np.int32)
+    if dt in (np.int64, np.uint64) and cls != "BooleanImage":
+        # 64-bit counters / identifiers / time stamps: values no double can hold exactly
+        big = rng.integers(2 ** 53, 2 ** 62, im.pixels.shape, dtype=np.int64) | 1
+        im.pixels = (big.astype(np.uint64) + np.uint64(2 ** 63) if dt == np.uint64 else big * rng.choice([-1, 1], big.shape)).astype(dt)
     for g in range(int(rng.integers(0, 3))):
         im.landmarks["g%d" % g] = gen.shape(rng, "PointCloud", d=d, n=4, scale=3.0)
     nonfinite = False
@@ -327,7 +351,11 @@ def w_crop(ctx, rng, i):
         im.pixels[(k >= 0.08) & (k < 0.16)] = -np.inf
         im.pixels[(k >= 0.16) & (k < 0.24)] = np.nan
         nonfinite = True
+    if im.pixels.dtype.kind == "f" and rng.random() < 0.3:
+        im.pixels[rng.random(im.pixels.shape) < 0.15] = -0.0          # a zero has a sign: "bit for bit" keeps it
     kind = ["inside", "low", "high", "both", "wholly", "fractional"][(i // 60) % 6]
+    if strip:
+        kind = ["high", "high", "inside", "low"][rng.integers(0, 4)]
     s = np.array(shp, dtype=float)
     lo = np.array([rng.integers(0, max(1, v - 1)) for v in shp], dtype=float)
     hi = np.array([rng.integers(l + 1, v + 1) for l, v in zip(lo, shp)], dtype=float)
@@ -335,7 +363,9 @@ def w_crop(ctx, rng, i):
     if kind == "low":
         lo[ax] = -float(rng.integers(1, 4))
     elif kind == "high":
-        hi[ax] = s[ax] + float(rng.integers(1, 4))
+        if strip:
+            ax = int(np.argmax(shp))
+        hi[ax] = s[ax] + (1.0 if strip else float(rng.integers(1, 4)))
     elif kind == "both":
         lo[ax] = -float(rng.integers(1, 4)); hi[(ax + 1) % d] = s[(ax + 1) % d] + float(rng.integers(1, 4))
     elif kind == "wholly":
@@ -344,7 +374,7 @@ def w_crop(ctx, rng, i):
         lo = lo + rng.uniform(0, 0.99, d); hi = np.maximum(hi - rng.uniform(0, 0.99, d), lo + 0.01)
         if rng.random() < 0.3:
             lo[ax] = -rng.uniform(0.1, 2.5)
-    cons = bool(rng.random() < 0.5)
+    cons = bool(rng.random() < (0.25 if strip else 0.5))
     rt = bool(rng.random() < 0.3)
     try:
         if rng.random() < 0.5:
@@ -386,7 +416,7 @@ def w_crop(ctx, rng, i):
             except ValueError:
                 pass
             ctx.tap("crop_to_true_mask_boundary_contract", "checked")
-    ctx.count_case(("crop", cls, d, np.dtype(dt).name, kind, cons, rt, nonfinite), nontrivial=True,
+    ctx.count_case(("crop", cls, d, np.dtype(dt).name, kind, cons, rt, nonfinite, strip), nontrivial=True,
                    sample={"cls": cls, "shape": list(shp), "min": lo.tolist(), "max": hi.tolist(), "constrain": cons} if i < 5 else None)
 
 
@@ -409,6 +439,13 @@ def w_patches(ctx, rng, i):
     shp = (int(rng.integers(6, 20)), int(rng.integers(6, 20)))
     im = gen.image(rng, cls, shape=shp, n_channels=C, dtype=dt)
     C = im.n_channels
+    nonfinite = False
+    if im.pixels.dtype.kind == "f" and rng.random() < 0.3:
+        # missing / unbounded values are pixel values like any other for a nearest-neighbour copy
+        kk = rng.random(im.pixels.shape)
+        im.pixels[kk < 0.1] = np.nan
+        im.pixels[(kk >= 0.1) & (kk < 0.15)] = [np.inf, -np.inf][rng.integers(0, 2)]
+        nonfinite = True
     ph, pw = [(3, 3), (4, 4), (3, 4), (5, 2), (1, 1), (2, 7), (6, 6)][(i // 75) % 7]
     ck = ["interior", "border", "beyond", "fractional"][(i // 7) % 4]
     n = int(rng.integers(1, 6))
@@ -431,6 +468,8 @@ def w_patches(ctx, rng, i):
     order = [0, 0, 1, 3][(i // 2) % 4]
     mode = ["constant", "nearest"][(i // 5) % 2]
     cval = [0.0, 1.0, 7.0][rng.integers(0, 3)] if cls != "BooleanImage" else [0.0, 1.0][rng.integers(0, 2)]
+    if im.pixels.dtype.kind == "f" and rng.random() < 0.2:
+        cval = float("nan")          # "no data" as the fill value for whatever lies outside the image
     pc = ms.PointCloud(c)
     res = im.extract_patches(pc, patch_shape=(ph, pw), sample_offsets=offs, order=order, mode=mode, cval=cval,
                              as_single_array=bool(rng.random() < 0.8))
@@ -440,11 +479,11 @@ def w_patches(ctx, rng, i):
         a = extract_patches_with_slice(im.pixels, c, (ph, pw), offsets=offs, cval=cval)
         b = extract_patches_by_sampling(im.pixels, c, (ph, pw), offsets=offs, order=0, mode="constant", cval=cval)
         ctx.tap("path_equivalence", "calls"); ctx.tap("path_equivalence", "checked")
-        if a.shape != b.shape or not np.array_equal(a, b):
-            ctx.fail("slicing_path_and_resampling_path_disagree", cls=cls, mech="%dch:%s" % (C, ck),
+        if a.shape != b.shape or not np.array_equal(a, b, equal_nan=a.dtype.kind == "f"):
+            ctx.fail("slicing_path_and_resampling_path_disagree", cls=cls, mech="%dch:%s" % (C, ck) + (":non_finite_pixels" if nonfinite else "") + (":nan_fill" if cval != cval else ""),
                      patch_shape=[ph, pw], image_shape=list(shp))
     # ---- write-back round trips on interior patches
-    if ck == "interior" and cls != "BooleanImage":
+    if ck == "interior" and cls != "BooleanImage" and not nonfinite:
         p0 = im.extract_patches(pc, patch_shape=(ph, pw), sample_offsets=offs)
         oi = 0 if offs is None else int(rng.integers(0, len(offs)))
         off = None if offs is None else tuple(int(v) for v in offs[oi])
